@@ -176,6 +176,11 @@ def gen_raft(r, style=None, maxops=30):
             if style in ("leader", "mixed") and r.random() < 0.3:
                 lead = r.choice([1, 2, 2, 3, 3])
                 leader_self = lead == 2
+                if leader_self:
+                    # from now on this node may batch what it received as a follower: a scripted foreign
+                    # entry must not contain those transactions as well (that would be the environment
+                    # putting a transaction into the log twice, not the code under test)
+                    remote.clear()
             ops.append(["ready", r.choice([0, 0, 0, 0, 1, 2, 5]), r.choice([0, 1, 1, 2, 3, 10]), r.choice([0, 0, 0, 1, 3]), lead])
         elif k < 0.72:
             for _ in range(r.choice([1, 1, 2, 4])):
